@@ -417,7 +417,7 @@ def run_history(name: str, seed: int):
     mdn = rng.choice(["bool", "bool", "uint8", "int64", "float32"])
     exact = name in ("apply_mask", "apply_mask-tuple", "ApplyMaskModule", "ApplyMaskModule-same-dict", "ApplyMask-wrapper", "apply_padding")
     newk = lambda: rand_values(rng, kshape, specials=exact)  # noqa: E731
-    newm = lambda: rand_mask(rng, mshape, mdn, rng.choice(["random", "random", "sparse", "ones"]))  # noqa: E731
+    newm = lambda: rand_mask(rng, mshape, mdn, rng.choice(["random", "random", "sparse", "ones", "values"]))  # noqa: E731
     aux = {"x": rand_values(rng, [b, h, w, 2], specials=False), "S": rand_values(rng, kshape, specials=False)}
     f = make()
     k, m = newk(), newm()
